@@ -32,7 +32,7 @@ UNCOMPILED_CONTEXTS = ["x = a.%s;", "x = %s(3);", "return a.%s;", "if (a.%s) { x
 COMPILE_INVALID = ["(1 += 2)", '("s" -= 1)', "[1 *= 2]", "(f() /= 2)"]
 VALID_STMT = ["x = 1;", 'x = "s";', "x++;", "x += 2;", "t(x);", "if (x) { y = 1; } else { y = 2; }", "foreach v in [1] { y = v; }",
               "while (x < 0) { x++; }", "switch (x) { case 1 { y = 1; } default { y = 2; } }", "x = a ? 1 : 2;", "x = /re/i;", "return 1;"]
-VALID_EXPR = ["1", '"s"', "a + 1", "(a)", "[1, 2]", '{"a": 1}', "f(1)", "a[0]", "a.b", "-a", "!a", "/re/"]
+VALID_EXPR = ["1", '"s"', "a + 1", "(a)", "[1, 2]", '{"a": 1}', "f(1)", "a[0]", "a.b", "-a", "!a", "/re/", "a.b.c", 'a."k"', "a.(b)", "a.b[0]", "a.(1 + 2)", "a.b(1)"]
 
 STMT_CONTEXTS = [
     "%s", "x0 = 0; %s y0 = 0;", "if (c) { %s }", "if (c) { x0 = 1; } else { %s }", "if (c) { } else if (d) { %s }",
@@ -115,8 +115,7 @@ class C13(Prop):
             for ctx in UNCOMPILED_CONTEXTS:
                 for pre in ["", rng.choice(PREFIXES)]:
                     c = case(pre + ctx % frag, False, "invalid-in-uncompiled-position")
-                    if ".%s" in ctx:
-                        c.tags.add("uncompiled-position")     # known finding D39; the callee of a call is checked since its partial repair
+                    # (both positions are looked at by Prepare since the repairs of D39: the callee of a call and the right operand of `.`)
                     out.append(c)
         for frag in COMPILE_INVALID + ["(3 = 4)", "#", "1 +"]:
             for ctx in REPEATED_KEY_CONTEXTS:
